@@ -76,9 +76,9 @@ CHECKS = {
         "design_ref": "DESIGN.md section 4, C06",
     },
     "C07": {
-        "technique": "lattice enumeration with real TLS handshakes (trustme certificates over socket.socketpair() against an in-process server thread, stdlib ssl and pyOpenSSL backends, direct and CONNECT tunnel): quick = every 3-axis interaction that involves a security axis (about 5 900 cells) + Hypothesis-sampled cells, thorough = the full pruned lattice (about 635 000 cells); oracle: reference decision table of the checks the settings demand (chain / pin / hostname via C08's independent matcher), compared with whether the server received any application byte, the error raised, socket closure, is_verified and InsecureRequestWarning",
+        "technique": "lattice enumeration with real TLS handshakes (trustme certificates over socket.socketpair() against an in-process server thread, stdlib ssl and pyOpenSSL backends, direct, http-proxy CONNECT tunnel and https-proxy tunnel with real TLS in TLS): quick = every 3-axis interaction that involves a security axis (about 5 900 cells) + Hypothesis-sampled cells, thorough = the full pruned lattice (about 635 000 cells); oracle: reference decision table of the checks the settings demand (chain / pin / hostname via C08's independent matcher), compared with whether the server received any application byte, the error raised, socket closure, is_verified and InsecureRequestWarning",
         "text": "Each cell configures HTTPSConnectionPool or ProxyManager with one combination of cert_reqs, CA source, assert_hostname, assert_fingerprint, server_hostname and caller-supplied context, connects to a server whose certificate has a chosen issuer and name shape under a chosen spelling of the host, and asserts: no application byte reaches the server unless every demanded check passes; a failed check surfaces as SSLError with the client socket closed; when everything passes the request succeeds; is_verified and InsecureRequestWarning follow (cert_reqs REQUIRED or pinned fingerprint).",
-        "note": "Trusts OpenSSL (through ssl and pyOpenSSL), trustme, vlib/refname.py. https-proxy (TLS-in-TLS) tunnels are exercised on the null-TLS layer in C09, not with real TLS here. Liveness is not asserted for ca_cert_data alone under pyOpenSSL (the installed pyOpenSSL rejects the context's first load call; fails closed).",
+        "note": "Trusts OpenSSL (through ssl and pyOpenSSL), trustme, vlib/refname.py. The https-proxy path (stdlib backend only; pyOpenSSL has no wrap_bio) adds the proxy certificate axis ok / untrusted / wrong name; urllib3 applies the destination's cert_reqs to the proxy leg too, so cert_reqs=NONE with the default proxy context is a configuration error of the ssl module there. Liveness is not asserted for ca_cert_data alone under pyOpenSSL (the installed pyOpenSSL rejects the context's first load call; fails closed).",
         "design_ref": "DESIGN.md section 4, C07",
     },
     "C08": {
